@@ -27,6 +27,20 @@ def _case(i):
         forced_stdin = rng.choice(gen.MULTILINE) if rng.random() < 0.8 else None
     elif i % 12 == 9:
         name, prog = 'tmpl:forward_jump', gen.tmpl_forward_jump(rng)
+    elif i % 24 == 13:
+        name, prog = 'tmpl:skip_loop', gen.tmpl_skip_loop(rng)
+        forced_stdin = rng.choice(gen.SKIP_STDINS) if rng.random() < 0.85 else None
+        if rng.random() < 0.6:
+            # input that really starts with the character the loop skips (the loop is taken 1-4 times)
+            cc = max(c[1] * c[2] for c in prog if c[0] == 0 and c[3] is not None and not isinstance(c[3], int))
+            forced_stdin = chr(cc) * rng.randint(1, 4) + rng.choice(['xyz\n', 'pq', '\nab\n', chr(cc - 1) + 'k\n', ''])
+    elif i % 24 == 19:
+        # loops whose number of jumps sits on the speculation budget (99, 100, 101, 102 jumps in one top-level command)
+        name, prog = 'tmpl:countdown(budget)', gen.tmpl_countdown(rng, iters=rng.choice([98, 99, 100, 100, 101, 101, 102, 103]))
+        if rng.random() < 0.4:
+            prog = gen.epilogue(rng, prog)
+    elif i % 24 == 7:
+        name, prog = 'tmpl:nested', gen.tmpl_nested(rng)
     elif i % 24 == 23:
         name, prog = 'tmpl:far_stacks', gen.tmpl_far_stacks(rng)
         if rng.random() < 0.5:
